@@ -29,7 +29,7 @@ SETS: Dict[str, List[Tuple[str, str]]] = {
     + [("src/krrood/entity_query_language/quantify_entity.py", q) for q in ("an", "the")],
     "eql": [
         ("src/krrood/entity_query_language/symbolic.py", q) for q in (
-            "Variable._evaluate__", "Literal.__init__", "DomainMapping._evaluate__",
+            "Variable._evaluate__", "Variable._forget_evaluation_memory_", "SymbolicExpression._forget_evaluation_memory_", "Literal.__init__", "DomainMapping._evaluate__",
             "DomainMapping._build_operation_result_and_update_truth_value_",
             "Attribute._apply_mapping_", "Index._apply_mapping_", "Call._apply_mapping_",
             "Comparator._evaluate__", "Comparator.apply_operation", "Comparator.get_first_second_operands",
